@@ -169,6 +169,15 @@ def soft(desc, node=None, abstract=None):
     return Failure(desc, node=node, neg=None, soft=True, abstract=abstract)
 
 
+def _norm_key(k):
+    """state keys of a generator's consuming loop (another frame) read like the loop's own"""
+    if k[0] == 'cattr':
+        return ('attr', k[1])
+    if k[0] == 'clocal':
+        return ('local', k[1])
+    return k
+
+
 def iterations(p, loop=None, func=None):
     """Loop iterations on a path in either mode -> [(first_seq, last_seq, start_state, end_state, head_event)]
     where the states map ('local'|'attr'|'start'|'file', name) -> IntV | Lin."""
@@ -180,8 +189,8 @@ def iterations(p, loop=None, func=None):
         b = next((x for x in backs if x.node is h.node and x.seq > h.seq), None)
         if b is None:
             continue
-        start = {k: v for k, v in h.data['gen'].items()}
-        end = {k: v for k, v in b.data['post'].items()}
+        start = {_norm_key(k): v for k, v in h.data['gen'].items()}
+        end = {_norm_key(k): v for k, v in b.data['post'].items()}
         for fid, (f, pos) in h.data.get('files', {}).items():
             start[('file', f.name)] = pos
         for fid, (f, pos) in b.data.get('files', {}).items():
